@@ -527,6 +527,15 @@ class BuiltinMixin(object):
 
     def _anyall(self, e, st, universal):
         a0 = e.args[0]
+        if isinstance(a0, (ast.GeneratorExp, ast.ListComp)) and len(a0.generators) == 2 and not a0.generators[0].ifs:
+            # two generators: any(E for a in A for b in B) == any(any(E for b in B) for a in A)
+            g1, g2 = a0.generators
+            inner = ast.Call(func=ast.Name(id="all" if universal else "any", ctx=ast.Load()),
+                             args=[ast.GeneratorExp(elt=a0.elt, generators=[g2])], keywords=[])
+            outer = ast.Call(func=e.func, args=[ast.GeneratorExp(elt=inner, generators=[g1])], keywords=[])
+            ast.copy_location(outer, e)
+            ast.fix_missing_locations(outer)
+            return self._anyall(outer, st, universal)
         if isinstance(a0, (ast.GeneratorExp, ast.ListComp)) and len(a0.generators) == 1:
             g = a0.generators[0]
             res = []
